@@ -319,7 +319,13 @@ def check(prop, tier, seed):
         distinct_nontrivial=len(hashes),
         rule=RULES[prop],
         samples=samples if samples else ["(no sample recorded)"],
-        exhaustive=PLANS[prop].get("exhaustive", {}).get(tier, False) and not inconclusive and all(pe["cut_by_budget"] == 0 for pe in per_engine.values()),
+        exhaustive=bool(PLANS[prop].get("exhaustive", {}).get(tier, False)) and not new_viol and all(
+            (e + ":" + prop) in per_engine
+            and per_engine[e + ":" + prop]["shards"] == per_engine[e + ":" + prop]["nshards"]
+            and per_engine[e + ":" + prop]["cases_run"] == per_engine[e + ":" + prop]["cases_total"]
+            and per_engine[e + ":" + prop]["cut_by_budget"] == 0
+            for e in PLANS[prop].get("exhaustive_engines", {}).get(tier, ["dev", "rel"])),
+        exhaustive_engines=PLANS[prop].get("exhaustive_engines", {}).get(tier, ["dev", "rel"]) if PLANS[prop].get("exhaustive", {}).get(tier, False) else [],
         distinct_cap_overflow=overflow,
         per_engine=per_engine,
         engines_used=sorted(usable),
